@@ -258,6 +258,11 @@ pub(crate) struct SerializableMap<'a> {
     // TODO: maybe the map should also serde itself using the iterator.
     commands: GroupingHashMap<token::CsName, SerializableCommand>,
     macros: Vec<Cow<'a, texmacro::Macro>>,
+    // Active characters go through the same path as control sequences.
+    // This is the last field and has a default so that VMs serialized before
+    // the field existed can still be deserialized.
+    #[cfg_attr(feature = "serde", serde(default))]
+    active_char: GroupingHashMap<char, SerializableCommand>,
 }
 
 #[cfg(feature = "serde")]
@@ -277,59 +282,71 @@ impl<'a> SerializableMap<'a> {
         let mut macros: Vec<Cow<'a, texmacro::Macro>> = Default::default();
         let primitive_key_to_built_in = map.primitive_key_to_built_in();
         let getters_key_to_built_in = map.getters_key_to_built_in();
+        let mut to_serializable = |command: &'a Command<S>| -> SerializableCommand {
+            match command {
+                Command::Expansion(_, _) | Command::Execution(_, _) => {
+                    let key = PrimitiveKey::new(command).unwrap();
+                    match primitive_key_to_built_in.get(&key) {
+                        None => todo!("return an error"),
+                        Some(built_in) => SerializableCommand::BuiltIn(*built_in),
+                    }
+                }
+                Command::Variable(variable_command) => {
+                    let key = PrimitiveKey::new(command).unwrap();
+                    if let Some(built_in) = primitive_key_to_built_in.get(&key) {
+                        SerializableCommand::BuiltIn(*built_in)
+                    } else {
+                        // As a fallback, we can serialize static references into arrays when
+                        // we've been provided with a way to reference the array.
+                        match variable_command.key() {
+                            variable::CommandKey::ArrayStatic(getters_key, index) => {
+                                let built_in =
+                                    getters_key_to_built_in.get(&getters_key).unwrap();
+                                SerializableCommand::VariableArrayStatic(*built_in, index.0)
+                            }
+                            _ => todo!(),
+                        }
+                    }
+                }
+                Command::Macro(tex_macro) => {
+                    let rc_addr = Rc::as_ptr(tex_macro) as usize;
+                    let u = *macros_de_dup.entry(rc_addr).or_insert_with(|| {
+                        let u = macros.len();
+                        macros.push(Cow::Borrowed(tex_macro));
+                        u
+                    });
+                    SerializableCommand::Macro(u)
+                }
+                Command::CharacterTokenAlias(v) => {
+                    SerializableCommand::CharacterTokenAlias(*v)
+                }
+                Command::Character(c) => SerializableCommand::Character(*c),
+                Command::MathCharacter(c) => SerializableCommand::MathCharacter(*c),
+                Command::Font(font) => SerializableCommand::Font(*font),
+            }
+        };
         let commands: GroupingHashMap<token::CsName, SerializableCommand> = map
             .commands
             .iter_all()
             .map(groupingmap::Item::adapt_map(
-                |(u, command): (usize, &Command<S>)| {
-                    let command: SerializableCommand = match command {
-                        Command::Expansion(_, _) | Command::Execution(_, _) => {
-                            let key = PrimitiveKey::new(command).unwrap();
-                            match primitive_key_to_built_in.get(&key) {
-                                None => todo!("return an error"),
-                                Some(built_in) => SerializableCommand::BuiltIn(*built_in),
-                            }
-                        }
-                        Command::Variable(variable_command) => {
-                            let key = PrimitiveKey::new(command).unwrap();
-                            if let Some(built_in) = primitive_key_to_built_in.get(&key) {
-                                SerializableCommand::BuiltIn(*built_in)
-                            } else {
-                                // As a fallback, we can serialize static references into arrays when
-                                // we've been provided with a way to reference the array.
-                                match variable_command.key() {
-                                    variable::CommandKey::ArrayStatic(getters_key, index) => {
-                                        let built_in =
-                                            getters_key_to_built_in.get(&getters_key).unwrap();
-                                        SerializableCommand::VariableArrayStatic(*built_in, index.0)
-                                    }
-                                    _ => todo!(),
-                                }
-                            }
-                        }
-                        Command::Macro(tex_macro) => {
-                            let rc_addr = Rc::as_ptr(tex_macro) as usize;
-                            let u = *macros_de_dup.entry(rc_addr).or_insert_with(|| {
-                                let u = macros.len();
-                                macros.push(Cow::Borrowed(tex_macro));
-                                u
-                            });
-                            SerializableCommand::Macro(u)
-                        }
-                        Command::CharacterTokenAlias(v) => {
-                            SerializableCommand::CharacterTokenAlias(*v)
-                        }
-                        Command::Character(c) => SerializableCommand::Character(*c),
-                        Command::MathCharacter(c) => SerializableCommand::MathCharacter(*c),
-                        Command::Font(font) => SerializableCommand::Font(*font),
-                    };
-
+                |(u, command): (usize, &'a Command<S>)| {
                     let cs_name = token::CsName::try_from_usize(u).unwrap();
-                    (cs_name, command)
+                    (cs_name, to_serializable(command))
                 },
             ))
             .collect();
-        Self { commands, macros }
+        let active_char: GroupingHashMap<char, SerializableCommand> = map
+            .active_char
+            .iter_all()
+            .map(groupingmap::Item::adapt_map(
+                |(c, command): (char, &'a Command<S>)| (c, to_serializable(command)),
+            ))
+            .collect();
+        Self {
+            commands,
+            macros,
+            active_char,
+        }
     }
 
     pub(crate) fn finish_deserialization<S>(
@@ -343,53 +360,56 @@ impl<'a> SerializableMap<'a> {
             .map(std::borrow::Cow::into_owned)
             .map(Rc::new)
             .collect();
-        // Active characters are not serialized (TODO), but the container must have
-        // the same number of open groups as the control sequences container.
-        let mut active_char: GroupingHashMap<char, Command<S>> = Default::default();
+        let from_serializable = |serialized_command: &SerializableCommand| -> Command<S> {
+            match serialized_command {
+                SerializableCommand::BuiltIn(cs_name) => {
+                    match built_in_commands.get(cs_name) {
+                        None => {
+                            panic!(
+                                "unknown control sequence {:?}",
+                                interner.resolve(*cs_name)
+                            )
+                        }
+                        Some(cmd) => cmd.cmd.clone(),
+                    }
+                }
+                SerializableCommand::VariableArrayStatic(cs_name, index) => {
+                    match &built_in_commands.get(cs_name).unwrap().cmd {
+                        Command::Variable(variable_command) => {
+                            Command::Variable(std::rc::Rc::new(
+                                variable_command.new_array_element(variable::Index(*index)),
+                            ))
+                        }
+                        _ => todo!(),
+                    }
+                }
+                SerializableCommand::Macro(u) => {
+                    // TODO: error handling if the macro is missing
+                    Command::Macro(macros.get(*u).unwrap().clone())
+                }
+                SerializableCommand::CharacterTokenAlias(v) => {
+                    Command::CharacterTokenAlias(*v)
+                }
+                SerializableCommand::Character(c) => Command::Character(*c),
+                SerializableCommand::MathCharacter(c) => Command::MathCharacter(*c),
+                SerializableCommand::Font(font) => Command::Font(*font),
+            }
+        };
         let commands: GroupingVec<Command<S>> = self
             .commands
             .iter_all()
-            .inspect(|item| {
-                if let groupingmap::Item::BeginGroup = item {
-                    active_char.begin_group();
-                }
-            })
             .map(groupingmap::Item::adapt_map(
                 |(cs_name, serialized_command): (token::CsName, &SerializableCommand)| {
-                    let command = match serialized_command {
-                        SerializableCommand::BuiltIn(cs_name) => {
-                            match built_in_commands.get(cs_name) {
-                                None => {
-                                    panic!(
-                                        "unknown control sequence {:?}",
-                                        interner.resolve(*cs_name)
-                                    )
-                                }
-                                Some(cmd) => cmd.cmd.clone(),
-                            }
-                        }
-                        SerializableCommand::VariableArrayStatic(cs_name, index) => {
-                            match &built_in_commands.get(cs_name).unwrap().cmd {
-                                Command::Variable(variable_command) => {
-                                    Command::Variable(std::rc::Rc::new(
-                                        variable_command.new_array_element(variable::Index(*index)),
-                                    ))
-                                }
-                                _ => todo!(),
-                            }
-                        }
-                        SerializableCommand::Macro(u) => {
-                            // TODO: error handling if the macro is missing
-                            Command::Macro(macros.get(*u).unwrap().clone())
-                        }
-                        SerializableCommand::CharacterTokenAlias(v) => {
-                            Command::CharacterTokenAlias(*v)
-                        }
-                        SerializableCommand::Character(c) => Command::Character(*c),
-                        SerializableCommand::MathCharacter(c) => Command::MathCharacter(*c),
-                        SerializableCommand::Font(font) => Command::Font(*font),
-                    };
-                    (cs_name.to_usize(), command)
+                    (cs_name.to_usize(), from_serializable(serialized_command))
+                },
+            ))
+            .collect();
+        let active_char: GroupingHashMap<char, Command<S>> = self
+            .active_char
+            .iter_all()
+            .map(groupingmap::Item::adapt_map(
+                |(c, serialized_command): (char, &SerializableCommand)| {
+                    (c, from_serializable(serialized_command))
                 },
             ))
             .collect();
